@@ -13,8 +13,8 @@ import (
 
 // VerifHook is set by the verification harness in the host process.
 var VerifHook struct {
-	// Msg is called for every framed message the host endpoint sends / receives.
-	Msg func(dir string, kind string)
+	// Msg is called for every framed message a host endpoint sends / receives (sock identifies the endpoint).
+	Msg func(sock *VerifSocket, dir string, kind string)
 	// Point is called at named points of host-side operations; it may block.
 	Point func(name string)
 }
@@ -71,14 +71,22 @@ func verifReplyKind(r *reply) string {
 
 var verifIsInit = os.Getpid() == 1 && len(os.Args) >= 2 && os.Args[1] == initArg
 
-func verifMsg(dir string, e any) {
+// VerifSocketOf returns the framed socket of an Environment (nil if unknown).
+func VerifSocketOf(e Environment) *VerifSocket {
+	if c, ok := e.(*container); ok {
+		return c.socket
+	}
+	return nil
+}
+
+func verifMsg(s *socket, dir string, e any) {
 	if verifIsInit {
 		// the container endpoint reports through its stderr (collected by Builder.Stderr on the host)
 		fmt.Fprintf(os.Stderr, "VMSG %s %s\n", dir, verifKind(e))
 		return
 	}
 	if f := VerifHook.Msg; f != nil {
-		f(dir, verifKind(e))
+		f(s, dir, verifKind(e))
 	}
 }
 
